@@ -620,6 +620,7 @@ struct Mono<'tcx> {
     list: Vec<Instance<'tcx>>,
     out: Vec<J>,
     unresolved: usize,
+    ext_statics: BTreeMap<String, J>,
 }
 
 impl<'tcx> Mono<'tcx> {
@@ -663,6 +664,18 @@ impl<'tcx> Mono<'tcx> {
         match tcx.global_alloc(id) {
             GlobalAlloc::Static(d) => {
                 statics.insert(defp(tcx, d));
+                if !self.ext_statics.contains_key(&defp(tcx, d)) {
+                    let t = tcx.type_of(d).instantiate_identity().skip_norm_wip();
+                    let mutable = matches!(tcx.def_kind(d), DefKind::Static { mutability, .. } if mutability.is_mut());
+                    let o = J::obj()
+                        .with("ty", J::s(ty_s(t)))
+                        .with("mut", J::Bool(mutable))
+                        .with("foreign", J::Bool(tcx.is_foreign_item(d)))
+                        .with("thread_local", J::Bool(tcx.is_thread_local_static(d)))
+                        .with("freeze", J::Bool(t.is_freeze(tcx, TypingEnv::fully_monomorphized())))
+                        .with("crate", J::s(tcx.crate_name(d.krate).to_string()));
+                    self.ext_statics.insert(defp(tcx, d), o);
+                }
                 if !tcx.is_foreign_item(d) {
                     if let Ok(a) = tcx.eval_static_initializer(d) {
                         let ptrs: Vec<AllocId> =
@@ -1041,6 +1054,10 @@ fn extract<'tcx>(tcx: TyCtxt<'tcx>, crate_name: &str, is_bin: bool) -> J {
         let body = tcx.optimized_mir(did);
         let mut b = body_json(tcx, def, body);
         b.set("kind", J::s(kname));
+        {
+            let (_, _, m) = span_info(tcx, tcx.def_span(did));
+            b.set("exp", J::Arr(m.into_iter().map(J::Str).collect()));
+        }
         let generics = tcx.generics_of(did);
         let requires_mono = generics.requires_monomorphization(tcx);
         b.set("generic", J::Bool(requires_mono));
@@ -1210,7 +1227,7 @@ fn extract<'tcx>(tcx: TyCtxt<'tcx>, crate_name: &str, is_bin: bool) -> J {
     }
 
     // ---- mono graph
-    let mut mono = Mono { tcx, ids: HashMap::new(), list: Vec::new(), out: Vec::new(), unresolved: 0 };
+    let mut mono = Mono { tcx, ids: HashMap::new(), list: Vec::new(), out: Vec::new(), unresolved: 0, ext_statics: BTreeMap::new() };
     let mut root_ids = Vec::new();
     for r in roots {
         let id = mono.id(r);
@@ -1224,5 +1241,10 @@ fn extract<'tcx>(tcx: TyCtxt<'tcx>, crate_name: &str, is_bin: bool) -> J {
     doc.set("mono_roots", J::Arr(root_ids));
     doc.set("mono_unresolved", J::u(mono.unresolved));
     doc.set("instances", J::Arr(mono.out));
+    let mut es = J::obj();
+    for (k, v) in mono.ext_statics {
+        es.set(&k, v);
+    }
+    doc.set("reached_statics", es);
     doc
 }
